@@ -79,6 +79,14 @@ var c09ExprB = []string{
 	"secrets.TOKEN", "secrets.a.b", "job.services.db.id", "job.services.db.ports.p", "job.services.a.b.c", "strategy.job-index", "strategy.nope.a", "vars.V1", "runner.os",
 }
 
+// expressions for the probe step's shell: (a place without workflow key)
+var c09ExprProbes = []string{
+	"${{ hashFiles('go.sum') && 'bash' || 'sh' }}",
+	"${{ always() && 'bash' || 'sh' }}",
+	"${{ runner.os == 'Linux' && 'bash' || 'sh' }}",
+	"${{ success() && hashFiles('a') || 'sh' }}",
+}
+
 const (
 	c09PosJobName = iota
 	c09PosJobEnv
@@ -272,7 +280,21 @@ func c09ExprRender(a string, pos int, mpos int, bs []string, styleSeed int) c09E
 			b.L(6, "  if: "+ph("true"))
 		}
 	}
+	// probe step: an expression at a place that has no entry in the availability table (shell:),
+	// calling a special function or reading a context. What is allowed there must not be inherited
+	// from the expression checked just before it (A, or the first B when A shares its step).
+	probe := func() {
+		b.L(6, "- run: echo")
+		b.L(6, "  shell: "+c09ExprProbes[styleSeed%len(c09ExprProbes)])
+	}
+	probeAfterFirstB := at(c09PosSameStep) || at(c09PosSameScalar)
+	if !probeAfterFirstB {
+		probe()
+	}
 	for k, e := range bs {
+		if k == 1 && probeAfterFirstB {
+			probe()
+		}
 		d.bLine = append(d.bLine, 0)
 		first := k == 0
 		switch {
@@ -396,6 +418,12 @@ func c09ExprCase(c *Case, fam string, a string, pos int, mpos int) {
 		return out
 	}
 	sw, sn := sel(dw), sel(dn)
+	for _, x := range dn {
+		if strings.Contains(x.Msg, "is not allowed here") || strings.Contains(x.Msg, "is not available here") {
+			c.Count("unkeyed_probe_reports", 1)
+			break
+		}
+	}
 	sort.Strings(sw)
 	sort.Strings(sn)
 	c.Count("expr_pairs", len(bs))
